@@ -78,7 +78,7 @@ def _pool(nd, mode, want):
         maps.append(p.map_async(W.val, ['m0', 'm1'], chunksize=1))
         w.feed()
     for _ in range(K - 2 if mode == 'fault' else K):
-        e = nd.draw(0, 3 if mode == 'callback' else 6)
+        e = nd.draw(0, 3 if mode == 'callback' else 5 if mode == 'grow' else 6)
         if e == 0:
             if nsub >= 3:
                 raise Prune()
@@ -131,6 +131,12 @@ def _pool(nd, mode, want):
                 w.drain_results()          # the result handler catches up (order of ACK/READY is C01's subject)
             except Propagated:
                 pass                       # (the caller of handle_result_event sees it; the job is done all the same)
+        elif e == 4 and mode == 'grow':
+            if p._processes >= 4:
+                raise Prune()
+            p.grow(1)                   # one more slot and, at the next supervision pass, one more worker
+        elif e == 5 and mode == 'grow':
+            w.tick()                    # the supervisor starts the workers grow() asked for (nobody has exited)
         elif e == 4:
             if mode != 'fault':
                 raise Prune()
@@ -191,7 +197,7 @@ def _pool(nd, mode, want):
     return True
 
 
-MODES = ('plain', 'fault', 'map', 'send', 'callback')
+MODES = ('plain', 'fault', 'map', 'send', 'callback', 'grow')
 
 
 def _run(code, want):
